@@ -122,7 +122,7 @@ impl Runner {
                     crate::verif::spawner_point(
                         crate::verif::SpawnerPoint::BeforeSpawnDecision,
                         num_spawned,
-                        crate::verif::encode_has_more(iter.has_more()),
+                        &|| crate::verif::encode_has_more(iter.has_more()),
                     );
                     match runner.do_spawn(num_spawned, iter.has_more()) {
                         false => break 'lag_period,
@@ -138,7 +138,7 @@ impl Runner {
                 crate::verif::spawner_point(
                     crate::verif::SpawnerPoint::AfterLag,
                     num_spawned,
-                    crate::verif::encode_has_more(iter.has_more()),
+                    &|| crate::verif::encode_has_more(iter.has_more()),
                 );
                 match runner.next_chunk_size(num_spawned, iter.has_more()) {
                     None => break 'lag_period,
@@ -150,7 +150,7 @@ impl Runner {
             crate::verif::spawner_point(
                 crate::verif::SpawnerPoint::BeforeFinalSpawn,
                 num_spawned,
-                crate::verif::encode_has_more(iter.has_more()),
+                &|| crate::verif::encode_has_more(iter.has_more()),
             );
             s.spawn(move || thread_task(chunk));
             num_spawned += 1;
@@ -197,7 +197,7 @@ impl Runner {
                     crate::verif::spawner_point(
                         crate::verif::SpawnerPoint::BeforeSpawnDecision,
                         num_spawned,
-                        crate::verif::encode_has_more(iter.has_more()),
+                        &|| crate::verif::encode_has_more(iter.has_more()),
                     );
                     match runner.do_spawn(num_spawned, iter.has_more()) {
                         false => break 'lag_period,
@@ -213,7 +213,7 @@ impl Runner {
                 crate::verif::spawner_point(
                     crate::verif::SpawnerPoint::AfterLag,
                     num_spawned,
-                    crate::verif::encode_has_more(iter.has_more()),
+                    &|| crate::verif::encode_has_more(iter.has_more()),
                 );
                 match runner.next_chunk_size(num_spawned, iter.has_more()) {
                     None => break 'lag_period,
@@ -225,7 +225,7 @@ impl Runner {
             crate::verif::spawner_point(
                 crate::verif::SpawnerPoint::BeforeFinalSpawn,
                 num_spawned,
-                crate::verif::encode_has_more(iter.has_more()),
+                &|| crate::verif::encode_has_more(iter.has_more()),
             );
             handles.push(s.spawn(move || thread_task(chunk)));
             num_spawned += 1;
@@ -277,7 +277,7 @@ impl Runner {
                     crate::verif::spawner_point(
                         crate::verif::SpawnerPoint::BeforeSpawnDecision,
                         threads.len(),
-                        crate::verif::encode_has_more(iter.has_more()),
+                        &|| crate::verif::encode_has_more(iter.has_more()),
                     );
                     match runner.do_spawn(threads.len(), iter.has_more()) {
                         false => break 'lag_period,
@@ -290,7 +290,7 @@ impl Runner {
                 crate::verif::spawner_point(
                     crate::verif::SpawnerPoint::AfterLag,
                     threads.len(),
-                    crate::verif::encode_has_more(iter.has_more()),
+                    &|| crate::verif::encode_has_more(iter.has_more()),
                 );
                 match runner.next_chunk_size(threads.len(), iter.has_more()) {
                     None => break 'lag_period,
@@ -302,7 +302,7 @@ impl Runner {
             crate::verif::spawner_point(
                 crate::verif::SpawnerPoint::BeforeFinalSpawn,
                 threads.len(),
-                crate::verif::encode_has_more(iter.has_more()),
+                &|| crate::verif::encode_has_more(iter.has_more()),
             );
             threads.push(s.spawn(move || thread_task(chunk)));
 
